@@ -5,6 +5,7 @@ from common import Run, audit, load_theorems, TRUSTED_BASE
 import pipeline as P
 import families as F
 import defs as D
+import textpipe as TP
 
 EQ_FUEL = {'quick': 150, 'thorough': 20000}
 SIZES = {'quick': dict(c08=150, c09=80, c10=120, c11=60), 'thorough': dict(c08=1500, c09=600, c10=900, c11=500)}
@@ -311,6 +312,7 @@ def check_c10(tier, seed, log=print):
                                               regex_crate_matches=o, logos_pattern_matches=mv,
                                               what='the pattern logos compiled (captured HIR, Lean semantics) and the regex crate disagree on this string'),
                           key='rc|%s|%s' % (cases[i]['src'], hexs(w)))
+    run.coverage['text_pipeline_predicted'] = TP.tie(cases, caps, P.run_lean)
     run.coverage.update(dict(evaluations=n + tc, distinct_nontrivial=eq, equivalences_proved=eq, undecided=unknown, literal_hirs_checked=lit_ok,
                              regex_crate_comparisons=tc,
                              rule='tokens (str and byte-string literals over metacharacters, cased non-ASCII, arbitrary bytes), regexes and skips, with and without ignore(case), each paired in one enum with an independently written reference form '
@@ -326,6 +328,7 @@ def check_c11(tier, seed, log=print):
     cases = F.fam_c11(R, SIZES[tier]['c11'])
     caps = P.run_capture([c['src'] for c in cases])
     n, eq, unknown, samples = equiv_pass(run, cases, caps, 'C11', log)
+    run.coverage['text_pipeline_predicted'] = TP.tie(cases, caps, P.run_lean)
     run.coverage.update(dict(evaluations=n, distinct_nontrivial=eq, equivalences_proved=eq, undecided=unknown,
                              rule='definitions with 1-3 subpatterns (alternations, inline flags, nested references, byte-string subpatterns), referenced at the start, middle and end of a pattern; '
                                   'each paired with the pattern obtained by independent inlining as (?u:src) / (?-u:src); equivalence decided for all strings by equivB; undefined names must be rejected; non-trivial = equivalence established',
@@ -445,6 +448,7 @@ def check_c18(tier, seed, log=print):
                 break
         if len(samples) < 4 and len(idxs) > 2:
             samples.append(dict(group=[cases[j]['src'].split('\n')[-3:] for j in idxs[:3]]))
+    run.coverage['text_pipeline_predicted'] = TP.tie(cases, caps, P.run_lean)
     run.coverage.update(dict(evaluations=n, distinct_nontrivial=len(nontriv), permutation_groups=len(groups),
                              rule='all permutations (with and without trailing comma, with and without a positional callback) of every subset of the named arguments, for #[token], #[regex] and skip(...); '
                                   'dependency-respecting permutations of #[logos(...)] items; every permutation must give the verdict, diagnostics, leaves and generated code of the first one; '
@@ -605,6 +609,35 @@ def check_c17(tier, seed, log=print):
                 after = open(outp, newline='').read() if os.path.exists(outp) else None
                 seqs.append((i, op, state, p.returncode, after, expected))
                 state = after
+        # directed: every class of file state relative to the expected output x (write | check), then a check
+        ndirected = 0
+        for i, c in enumerate(cases[: (4 if tier == 'quick' else 40)]):
+            cap = caps[i]
+            if cap is None or cap.strip is None or cap.codetext is None:
+                continue
+            inp = os.path.join(wdir, 'in%d.rs' % i)
+            outp = os.path.join(wdir, 'dout%d.rs' % i)
+            expected = bytes.fromhex(cap.strip).decode('utf-8') + cap.codetext
+            half = len(expected) // 2
+            pre_states = [None, '', 'short garbage', expected + '\n// a longer file than the output\n' * 3, 'x' * (len(expected) + 57), expected,
+                          expected.replace('\n', '\r\n'), expected + '\n', expected + '\n// stale line\n', '\n'.join(expected.split('\n')[:-1]),
+                          expected[:half], expected[:half] + ('#' if expected[half] != '#' else '%') + expected[half + 1:], expected + expected]
+            for pre in pre_states:
+                for op in ('write', 'check'):
+                    if pre is None:
+                        if os.path.exists(outp):
+                            os.remove(outp)
+                    else:
+                        open(outp, 'w', newline='').write(pre)
+                    state = pre
+                    for op2 in (op, 'check'):
+                        args = [cli, inp, '--output', outp] + (['--check'] if op2 == 'check' else [])
+                        p = subprocess.run(args, capture_output=True, text=True)
+                        cli_runs += 1
+                        ndirected += 1
+                        after = open(outp, newline='').read() if os.path.exists(outp) else None
+                        seqs.append((i, op2, state, p.returncode, after, expected))
+                        state = after
         for (i, op, before, rc, after, expected) in seqs:
             cq.append('Q CLI %d %s %s' % (1 if op == 'check' else 0, 'none' if before is None else hexs(before.encode('utf-8')), hexs(expected.encode('utf-8'))))
         mans = P.run_lean(cq, nproc=1)
@@ -633,10 +666,10 @@ def check_c17(tier, seed, log=print):
                 if not msg:
                     run.violation('tie', dict(definition=cases[i]['src'], op=op, model=mv[:100], real=real[:100],
                                               correspondence='logos-cli main vs LogosModel.Strip.cliRun'), no_input=True, key='clitie|%s|%s' % (cases[i]['src'], op))
-    run.coverage.update(dict(evaluations=n + cli_runs, distinct_nontrivial=len(nontriv), cli_invocations=cli_runs,
+    run.coverage.update(dict(evaluations=n + cli_runs, distinct_nontrivial=len(nontriv), cli_invocations=cli_runs, cli_directed_invocations=ndirected if cli is not None else 0,
                              rule='enum sources with derives in every position (plain, path-qualified, leading ::, several derive attributes, trailing commas), cfg_attr, repr, doc comments, variant and field attributes; '
                                   'strip_attributes output compared structurally (syn) with the input: same header, variants, fields, every non-logos attribute, derive paths minus Logos; generated code parses as a Rust file; '
-                                  'the real logos-cli binary run through random sequences of write / --check / corrupt / CRLF-convert / delete / empty file / stale trailing lines / dropped last line with file snapshots; non-trivial = input has a path-qualified derive',
+                                  'the real logos-cli binary run through random sequences of write / --check / corrupt / CRLF-convert / delete / empty file / stale trailing lines / dropped last line with file snapshots, and directed: every class of existing file (missing, empty, shorter, longer, equal, CRLF, extra newline, stale tail, truncated, one byte changed, doubled) x (write | --check) followed by --check; non-trivial = input has a path-qualified derive',
                              samples=samples, model_vs_impl_disagreements=tie_dis))
     run.assumptions += ['--format (rustfmt) is not exercised', 'which paths "denote Logos" is taken as: last path segment is `Logos`']
     return run.finish()
